@@ -22,9 +22,19 @@ def _fz(x):
     return 0.0 if x == 0 else x
 
 
+def _reported_substances(c):
+    """What the container itself *reports* through its public (memoised) observer: part of its observable state.
+    The library caches this answer per equal container, so a shared cached answer that some operation updates in
+    place shows up here and nowhere in the attributes."""
+    try:
+        return tuple(sorted(repr(fp_substance(s)) for s in c.get_substances()))
+    except Exception as e:   # noqa
+        return ('raised', type(e).__name__)
+
+
 def fp_container(c):
     ec = getattr(c, 'experimental_conditions', None)
-    return ('C', c.name,
+    return ('C', c.name, _reported_substances(c),
             tuple((fp_substance(s), _fz(a)) for s, a in c.contents.items()),
             _fz(c.volume), c.max_volume, getattr(c, 'instructions', None),
             repr(sorted(ec.items(), key=repr)) if isinstance(ec, dict) else repr(ec))
